@@ -11,6 +11,7 @@ all as truncated polynomial products per direction, and the zeroth coefficients 
 NumPy/SciPy return for A_0 (qr, cholesky, lu, eigh).
 Correspondence: the order-by-order step equations of `_qr_rectangular` (square case) and `_cholesky`
 that the Lean theorems are about are evaluated on the implementation's output."""
+import itertools
 import numpy as np
 import scipy.linalg
 from common import *
@@ -65,7 +66,7 @@ def gen_sym_repeated(rng, D, P, n, split_order):
 
 
 def make_case(rng, tier):
-    kind = rng.choice(['qr', 'qr', 'qr_full', 'cholesky', 'lu', 'eigh', 'eigh_rep', 'eig', 'svd'])
+    kind = rng.choice(['qr', 'qr', 'qr_full', 'cholesky', 'lu', 'lu2', 'lu_factor', 'eigh', 'eigh_rep', 'eig', 'svd'])
     D = rng.randint(1, 4 if tier == 'quick' else 6)
     P = rng.choice([1, 2])
     c = {'op': kind, 'D': D, 'P': P}
@@ -81,7 +82,7 @@ def make_case(rng, tier):
         c['x'] = ops.gen_tall(rng, D, P, m, n)
     elif kind == 'cholesky':
         c['x'] = ops.gen_square(rng, D, P, rng.randint(1, 4), 'spd')
-    elif kind == 'lu':
+    elif kind in ('lu', 'lu2', 'lu_factor'):
         c['x'] = ops.gen_square(rng, D, P, rng.randint(1, 4), 'general')
     elif kind == 'eigh':
         c['x'] = ops.gen_square(rng, D, P, rng.randint(1, 4), 'sym')
@@ -147,6 +148,19 @@ def check(c):
                 L = algopy.cholesky(A)
             elif kind == 'lu':
                 W, L, U = algopy.lu(A)
+            elif kind == 'lu2':
+                PIV, L, U = UTPM.lu2(A)
+                W = UTPM(np.zeros(A.data.shape))
+                for p_ in range(P):
+                    W.data[0, p_] = algopy.utils.piv2mat(PIV.data[0, p_].astype(int))
+            elif kind == 'lu_factor':
+                LUp, PIV = UTPM.lu_factor(A)
+                W = UTPM(np.zeros(A.data.shape))
+                L = UTPM(np.tril(LUp.data, -1))
+                U = UTPM(np.triu(LUp.data))
+                for p_ in range(P):
+                    W.data[0, p_] = algopy.utils.piv2mat(PIV.data[0, p_].astype(int))
+                    L.data[0, p_] += np.eye(A.data.shape[2])
             elif kind in ('eigh', 'eigh_rep'):
                 l, Q = algopy.eigh(A) if 'scale_log2' not in c else UTPM.eigh(A, epsilon=1e-8 * scale)
             elif kind == 'eig':
@@ -200,7 +214,7 @@ def check(c):
             f = step_equations_fail('cholesky', a, (l_,))
             if f:
                 return f
-        elif kind == 'lu':
+        elif kind in ('lu', 'lu2', 'lu_factor'):
             w, l_, u = W.data[:, p], L.data[:, p], U.data[:, p]
             if np.any(w[1:] != 0):
                 return 'lu-P-constant: the permutation has non-zero higher coefficients'
@@ -297,8 +311,33 @@ def replay_case(ctx, case):
     return check(case)
 
 
+def permuted_lu_cases(rng):
+    """every row permutation of a 3x3 base matrix (and some of 4x4) for each LU entry point"""
+    perms = list(itertools.permutations(range(3))) + [(1, 2, 3, 0), (3, 0, 1, 2), (2, 3, 0, 1), (1, 0, 3, 2)]
+    out = []
+    for perm in perms:
+        n = len(perm)
+        for kind in ('lu', 'lu2', 'lu_factor'):
+            D, P = rng.randint(2, 3), rng.choice([1, 2])
+            x = rand_coeffs(rng, (D, P, n, n), -1, 1)
+            base = rand_coeffs(rng, (n, n), -1, 1) + 4 * np.eye(n)
+            for p_ in range(P):
+                x[0, p_] = (base + 0.25 * rand_coeffs(rng, (n, n), -1, 1))[list(perm)]
+            out.append({'op': kind, 'D': D, 'P': P, 'x': x})
+    return out
+
+
 def run(ctx):
     rng = ctx.rng
+    for c in permuted_lu_cases(rng):
+        ctx.evaluations += 1
+        ctx.count('permuted=' + c['op'])
+        try:
+            f = check(c)
+        except Exception as ex:
+            f = 'exception-%s: %s' % (c['op'], type(ex).__name__ + ':' + str(ex)[:100])
+        if f:
+            ctx.report(c, 'failure', f)
     for i in range(300 if ctx.tier == 'quick' else 4000):
         c = make_case(rng, ctx.tier)
         ctx.evaluations += 1
